@@ -25,6 +25,7 @@ INT_MAX = (1 << 31) - 1
 
 WILD = ("signal-each", "signal-anything", "signal-everything")
 COMBINATORS = ("arithmetic-combinator", "decider-combinator")
+NO_ENABLE_FLAG = ("pump", "offshore-pump", "power-switch")
 
 
 def w32(x: int) -> int:
@@ -410,7 +411,11 @@ class Sim:
         off/absent (the entity ignores the network)."""
         e = self.ents[n]
         cb = e.get("control_behavior", {}) or {}
-        if not cb.get("circuit_enabled", False):
+        if e["name"] in NO_ENABLE_FLAG:
+            # pumps and power switches have no enable flag: a wired condition controls them
+            if cb.get("circuit_condition") is None:
+                return (False, None)
+        elif not cb.get("circuit_enabled", False):
             return (False, None)
         c = cb.get("circuit_condition")
         if c is None:
